@@ -166,6 +166,18 @@ def reference_checks(ctx, R, rng, sc):
             lac = sysm.la_c(t, q, u0)
             _report(ctx, "ref.la_c", "System.la_c", "compliance stresses la_c(Q) of the reference configuration are not zero",
                     lac, np.zeros_like(lac), 1e-10 * sc.f, ex)
+            if hasattr(rod, "E_comp_pot"):
+                # the mixed formulation's own (complementary) energy: zero for the stress-free reference, and callable at all
+                ctx.mon("ref.E_pot")
+                try:
+                    Ec = float(rod.E_comp_pot(t, np.asarray(lac)[rod.la_cDOF] if hasattr(rod, "la_cDOF") else lac))
+                    if abs(Ec) > 1e-18 * sc.E:
+                        ctx.violation("rod.E_comp_pot", "complementary strain energy of the reference configuration is not zero", {**ex, "E_comp_pot": Ec})
+                except Exception as e_:
+                    if rodgen.raised_in_cardillo(e_)[0]:
+                        ctx.violation("rod.E_comp_pot", "complementary strain energy of a mixed rod cannot be evaluated", {**ex, "error": f"{type(e_).__name__}: {e_}"[:200]})
+                    else:
+                        raise
         if R.nla_g:
             g0 = sysm.g(t, q)
             _report(ctx, "ref.g", "System.g", "internal-constraint residual g(Q) of the reference configuration is not zero",
